@@ -396,17 +396,18 @@ fn compile_op(name: &str, srcs: &[String], check: bool) -> String {
             let shape_json = shape.as_ref().map(|s| serde_json::to_string(s).unwrap());
             let linked = json_shape_build::verif_infer_json(srcs);
             let mut verdict = String::new();
-            // the file is what a user includes inside a module: the returned items behind a header that may hold
-            // comments, blank lines and `use` items only (no inner attribute, no inner doc comment)
+            // the file is what a user includes inside a module: the returned items behind a header in which nothing
+            // is illegal at that place (an inner attribute or an inner doc comment is; comments, `use`, outer
+            // attributes are not)
             let file_text = std::fs::read_to_string(&expected_file).unwrap_or_default();
             let header_ok = file_text.strip_suffix(text.as_str()).is_some_and(|h| {
                 h.lines().all(|l| {
                     let l = l.trim();
-                    l.is_empty() || (l.starts_with("//") && !l.starts_with("//!")) || (l.starts_with("use ") && l.ends_with(';'))
+                    !(l.starts_with("#![") || l.starts_with("//!") || l.starts_with("/*!"))
                 })
             });
             if !header_ok {
-                verdict = "violated: the file written is not the returned items behind a header of comments and use items".into();
+                verdict = "violated: the file written is not the returned items behind a header that is legal inside a module".into();
             } else if check && shape.is_none() {
                 verdict = "violated: compiled although inference rejects the sources".into();
             } else if check {
@@ -665,6 +666,62 @@ fn allocs_family(family: &str, n: usize) -> String {
             size = srcs.iter().map(String::len).sum();
             measure(&mut || {
                 let _ = JsonShape::from_sources(&srcs);
+            })
+        }
+        "merge_wide_disjoint" | "merge_wide_same" | "merge_wide_half" => {
+            // two objects of n members: no name in common / all names in common / half of them
+            let a: Vec<String> = (0..n).map(|i| format!("\"a{i:05}\":{i}")).collect();
+            let b: Vec<String> = (0..n)
+                .map(|i| match family {
+                    "merge_wide_disjoint" => format!("\"b{i:05}\":\"s\""),
+                    "merge_wide_same" => format!("\"a{i:05}\":\"s\""),
+                    _ => if i % 2 == 0 { format!("\"a{i:05}\":null") } else { format!("\"b{i:05}\":[1]") },
+                })
+                .collect();
+            let srcs = vec![format!("{{{}}}", a.join(",")), format!("{{{}}}", b.join(","))];
+            size = srcs.iter().map(String::len).sum();
+            let shapes: Vec<JsonShape> = srcs.iter().map(|t| JsonShape::from_str(t).unwrap()).collect();
+            measure(&mut || {
+                let _ = json_shape::verif::merger(shapes[0].clone(), shapes[1].clone());
+            })
+        }
+        "sources_distinct" => {
+            // n one-member sources, every member name different
+            let srcs: Vec<String> = (0..n).map(|i| format!("{{\"k{i:05}\":{i}}}")).collect();
+            size = srcs.iter().map(String::len).sum();
+            measure(&mut || {
+                let _ = JsonShape::from_sources(&srcs);
+            })
+        }
+        "sources_variants" => {
+            // n sources of n different shapes at one place: a OneOf of n variants
+            let srcs: Vec<String> = (0..n).map(|i| format!("{{\"v\":{}1{}}}", "[".repeat(i), "]".repeat(i))).collect();
+            size = srcs.iter().map(String::len).sum();
+            measure(&mut || {
+                let _ = JsonShape::from_sources(&srcs);
+            })
+        }
+        "merge_wide_tuple" => {
+            let a: Vec<&str> = (0..n).map(|i| ["1", "\"s\"", "true"][i % 3]).collect();
+            let b: Vec<&str> = (0..n).map(|i| ["1", "\"s\"", "null"][i % 3]).collect();
+            let srcs = vec![format!("[{}]", a.join(",")), format!("[{}]", b.join(","))];
+            size = srcs.iter().map(String::len).sum();
+            measure(&mut || {
+                let _ = JsonShape::from_sources(&srcs);
+            })
+        }
+        "subset_wide" | "subset_wide_oneof" => {
+            let a: Vec<String> = (0..n).map(|i| format!("\"a{i:05}\":{}", ["1", "\"s\"", "[1,\"x\"]", "{\"k\":true}"][i % 4])).collect();
+            let t = format!("{{{}}}", a.join(","));
+            size = t.len();
+            let x = JsonShape::from_str(&t).unwrap();
+            let y = if family == "subset_wide" {
+                json_shape::verif::merger(x.clone(), JsonShape::Null).unwrap()
+            } else {
+                JsonShape::from_sources(&[t.clone(), "1".to_string(), "[1]".to_string(), "\"s\"".to_string()]).unwrap()
+            };
+            measure(&mut || {
+                let _ = x.is_subset(&y);
             })
         }
         "subset_depth" => {
